@@ -13,36 +13,28 @@ Definition fetch_truthful (b : mbox) (recent : list N) (r : resp) : Prop :=
   end.
 
 (* update()/get() of one message leave every other message as it is *)
-Lemma mb_update_frame u op fl b b' m ex v :
-  mb_update u op fl b = Some (b', m, ex) -> v <> u -> mb_alive v b' = mb_alive v b.
+Lemma mb_update_frame u cf op fl b b' m ex v :
+  mb_update u cf op fl b = Some (b', m, ex) -> v <> u -> mb_alive v b' = mb_alive v b.
 Proof.
-  unfold mb_update. destruct (mb_get u b) as [[m0 [|]]|] eqn:G; [| |discriminate].
+  unfold mb_update. destruct (mb_get u cf b) as [[m0 [|]]|] eqn:G; [| |discriminate].
   - intros H Hv; injection H as Hb Hm He. subst b'. reflexivity.
   - intros H Hv. injection H as Hb Hm He. subst b'. unfold mb_alive. cbn [mb_msgs].
     rewrite find_replace_msg. cbn [m_uid].
-    assert (Mu : m_uid m0 = u).
-    { unfold mb_get in G. destruct ((u <? 1)%N || (mb_max_uid b <? u)%N); [discriminate|].
-      destruct (mb_alive u b) as [x|] eqn:A.
-      - inversion G; subst. apply find_msg_Some in A. apply A.
-      - destruct (find_msg u (mb_dead b)); discriminate. }
+    destruct (mb_get_cases _ _ _ _ _ G) as (Mu & _ & _).
     rewrite Mu. destruct (v =? u)%N eqn:E; [apply N.eqb_eq in E; congruence|reflexivity].
 Qed.
 
-Lemma mb_update_result u op fl b b' m ex :
-  mb_update u op fl b = Some (b', m, ex) ->
+Lemma mb_update_result u cf op fl b b' m ex :
+  mb_update u cf op fl b = Some (b', m, ex) ->
   (ex = false -> mb_alive u b' = Some m) /\ (ex = true -> mb_alive u b' = None /\ b' = b).
 Proof.
-  unfold mb_update. destruct (mb_get u b) as [[m0 [|]]|] eqn:G; [| |discriminate].
+  unfold mb_update. destruct (mb_get u cf b) as [[m0 [|]]|] eqn:G; [| |discriminate].
   - intros H; injection H as Hb Hm He. subst b' m ex. split; [discriminate|]. intros _. split; auto.
-    unfold mb_get in G. destruct ((u <? 1)%N || (mb_max_uid b <? u)%N); [discriminate|].
-    destruct (mb_alive u b); [discriminate|reflexivity].
+    apply (mb_get_cases _ _ _ _ _ G); reflexivity.
   - intros H; injection H as Hb Hm He. subst b' m ex. split; [|discriminate]. intros _.
     unfold mb_alive. cbn [mb_msgs]. rewrite find_replace_msg. cbn [m_uid].
-    assert (A : mb_alive u b = Some m0).
-    { unfold mb_get in G. destruct ((u <? 1)%N || (mb_max_uid b <? u)%N); [discriminate|].
-      destruct (mb_alive u b); [congruence|]. destruct (find_msg u (mb_dead b)); discriminate. }
-    pose proof (find_msg_Some _ _ _ A) as [Mu _]. rewrite Mu, N.eqb_refl.
-    unfold mb_alive in A. rewrite A. reflexivity.
+    destruct (mb_get_cases _ _ _ _ _ G) as (Mu & A & _). specialize (A eq_refl).
+    rewrite Mu, N.eqb_refl. unfold mb_alive in A. rewrite A. reflexivity.
 Qed.
 
 (* an operation of the message loops, with what it tells about the message *)
@@ -53,27 +45,20 @@ Definition op_exact (op : N -> mbox -> option (mbox * msg * bool)) : Prop :=
     /\ (ex = false -> mb_alive u b' = Some m)
     /\ (ex = true -> mb_alive u b' = None).
 
-Lemma op_get_exact : op_exact op_get.
+Lemma op_get_exact v : op_exact (op_get v).
 Proof.
-  intros u b b' m ex H. unfold op_get in H. destruct (mb_get u b) as [[m0 e0]|] eqn:G; [|discriminate].
-  injection H as Hb Hm He. subst b' m0 e0. split; [auto|]. unfold mb_get in G.
-  destruct ((u <? 1)%N || (mb_max_uid b <? u)%N); [discriminate|].
-  destruct (mb_alive u b) as [x|] eqn:A.
-  - injection G as G1 G2. subst x ex. split; [apply (find_msg_Some _ _ _ A)|]. split; [auto|discriminate].
-  - destruct (find_msg u (mb_dead b)) as [d|] eqn:D; [|discriminate]. injection G as G1 G2. subst d ex.
-    split; [apply (find_msg_Some _ _ _ D)|]. split; [discriminate|auto].
+  intros u b b' m ex H. unfold op_get in H.
+  destruct (mb_get u (aget u (v_fkeys v)) b) as [[m0 e0]|] eqn:G; [|discriminate].
+  injection H as Hb Hm He. subst b' m0 e0. split; [auto|].
+  destruct (mb_get_cases _ _ _ _ _ G) as (Mu & A & D). auto.
 Qed.
-Lemma op_update_exact o fl : op_exact (fun u b => mb_update u o fl b).
+Lemma op_update_exact v o fl : op_exact (op_update v o fl).
 Proof.
-  intros u b b' m ex H. split; [intros v Hv; eapply mb_update_frame; eauto|].
-  destruct (mb_update_result _ _ _ _ _ _ _ H) as [A B]. split.
-  - unfold mb_update in H. destruct (mb_get u b) as [[m0 e0]|] eqn:G; [|discriminate].
-    assert (Mu : m_uid m0 = u).
-    { unfold mb_get in G. destruct ((u <? 1)%N || (mb_max_uid b <? u)%N); [discriminate|].
-      destruct (mb_alive u b) as [x|] eqn:Al.
-      - inversion G; subst. apply (find_msg_Some _ _ _ Al).
-      - destruct (find_msg u (mb_dead b)) as [d|] eqn:D; [|discriminate]. inversion G; subst.
-        apply (find_msg_Some _ _ _ D). }
+  intros u b b' m ex H. unfold op_update in H.
+  split; [intros w Hw; eapply mb_update_frame; eauto|].
+  destruct (mb_update_result _ _ _ _ _ _ _ _ H) as [A B]. split.
+    unfold mb_update in H. destruct (mb_get u (aget u (v_fkeys v)) b) as [[m0 e0]|] eqn:G; [|discriminate].
+    destruct (mb_get_cases _ _ _ _ _ G) as (Mu & _ & _).
     destruct e0; injection H as Hb Hm He; subst m; exact Mu.
   - split; auto. intros E. apply B, E.
 Qed.
@@ -176,25 +161,37 @@ Qed.
 
 (* the FETCH updates produced by fork() *)
 Lemma fork_truthful b wu s :
-  Forall (fetch_truthful b (sel_recent s)) (snd (fork (cached_of b) wu s)).
+  (forall u m, mb_alive u b = Some m -> In u (v_sorted (sel_view s)) ->
+               aget u (v_fkeys (sel_view s)) = Some (m_flags m)) ->
+  SelInv b s ->
+  Forall (fetch_truthful b (sel_recent s)) (snd (fork (cached_of b (sel_view s)) wu s)).
 Proof.
-  unfold fork. cbn [snd]. destruct (sel_prev s) as [fz|]; [|constructor].
+  intros Hfresh S. unfold fork. cbn [snd]. destruct (sel_prev s) as [fz|]; [|constructor].
   unfold compare. apply Forall_app. split; [|apply Forall_app; split].
   - unfold compare_uids. apply Forall_app. split.
     + destruct (sel_hide s); [constructor|]. apply Forall_forall. intros r Hr.
       apply in_map_iff in Hr as [u [<- _]]. destruct (aget u (fz_seqs fz)); exact I.
     + match goal with |- Forall _ (match ?x with _ => _ end) => destruct x end; repeat constructor.
   - match goal with |- Forall _ (if ?x then _ else _) => destruct x end; repeat constructor.
-  - apply Forall_forall. intros r Hr. apply in_map_iff in Hr as [u [<- _]].
+  - apply Forall_forall. intros r Hr. apply in_map_iff in Hr as [u [<- Hu]].
     destruct (aget u (fz_seqs (freeze s))); [|exact I].
-    destruct (cached_of b u) as [f|] eqn:C; [|exact I].
-    cbn [fetch_truthful]. intros m A. unfold cached_of, mb_cached in C. rewrite A in C.
-    cbn [option_map] in C. inversion C; subst. reflexivity.
+    destruct (cached_of b (sel_view s) u) as [f|] eqn:C; [|exact I].
+    cbn [fetch_truthful]. intros m A. unfold cached_of in C. destruct (mb_md b).
+    + (* maildir: the cached copy is the synchronized snapshot *)
+      apply (proj1 (nsort_In _ _)) in Hu.
+      assert (Hv : In u (v_sorted (sel_view s))).
+      { apply in_app_or in Hu as [Hu|Hu].
+        - apply ndiff_In in Hu as [Hu _]. cbn [freeze fz_recent] in Hu. apply ninter_In in Hu. apply Hu.
+        - apply in_map_iff in Hu as [[u' f'] [E Hu]]. cbn [fst] in E. subst u'.
+          apply filter_In in Hu as [Hu _]. cbn [freeze fz_flags] in Hu. apply (si_kdom _ _ S).
+          apply aget_In_keys. unfold akeys. apply in_map_iff. exists (u, f'). auto. }
+      rewrite (Hfresh u m A Hv) in C. inversion C; subst. reflexivity.
+    + unfold mb_cached in C. rewrite A in C. cbn [option_map] in C. inversion C; subst. reflexivity.
 Qed.
 
 (* the FETCH updates of fork() are numbered by the view *)
 Lemma fork_labelled b wu s : SelInv b s ->
-  Forall (Labelled (v_sorted (sel_view s))) (snd (fork (cached_of b) wu s)).
+  Forall (Labelled (v_sorted (sel_view s))) (snd (fork (cached_of b (sel_view s)) wu s)).
 Proof.
   intros S. unfold fork. cbn [snd]. destruct (sel_prev s) as [fz|]; [|constructor].
   unfold compare. apply Forall_app. split; [|apply Forall_app; split].
@@ -212,7 +209,7 @@ Proof.
         apply filter_In in Hu as [Hu _]. cbn [freeze fz_flags] in Hu. apply (si_kdom _ _ S).
         apply aget_In_keys. unfold akeys. apply in_map_iff. exists (u, f). auto. }
     destruct (seqs_ok_pos _ _ u (si_seqs _ _ S) Hv) as (n & Hn & Nz & Hnth).
-    cbn [freeze fz_seqs]. rewrite Hn. destruct (cached_of b u); [|exact I].
+    cbn [freeze fz_seqs]. rewrite Hn. destruct (cached_of b (sel_view s) u); [|exact I].
     cbn [Labelled]. auto.
 Qed.
 
@@ -249,7 +246,7 @@ Proof.
   assert (V0 : sel_view s0 = sel_view s) by (unfold s0; destruct by_uid; reflexivity).
   rewrite V0.
   set (opf := if negb (sel_readonly s0) && set_seen
-              then (fun u b => mb_update u FAdd [F_SEEN] b) else op_get).
+              then op_update (sel_view s) FAdd [F_SEEN] else op_get (sel_view s)).
   assert (Hex : op_exact opf).
   { unfold opf. destruct (negb (sel_readonly s0) && set_seen); [apply op_update_exact|apply op_get_exact]. }
   fold opf. destruct (msg_loop opf (view_select sset by_uid (sel_view s)) b) as [[b1 msgs]|] eqn:L;
@@ -274,14 +271,14 @@ Proof.
   set (s0 := if by_uid then s else with_hide s).
   assert (V0 : sel_view s0 = sel_view s) by (unfold s0; destruct by_uid; reflexivity).
   rewrite V0.
-  destruct (msg_loop (fun u b => mb_update u op (perm_intersect (fs_of fl)) b)
+  destruct (msg_loop (op_update (sel_view s) op (perm_intersect (fs_of fl)))
                      (view_select sset by_uid (sel_view s)) b) as [[b1 msgs]|] eqn:L;
     [|cbn; discriminate].
   cbn [o_sel o_boxes o_untagged o_fork]. rewrite aget_aset_eq. intros _ Es Eb.
   inversion Es; inversion Eb; subst.
   assert (Ok : entries_ok b' msgs).
   { unfold msg_loop in L.
-    apply (msg_loop_exact _ (op_update_exact op (perm_intersect (fs_of fl)))
+    apply (msg_loop_exact _ (op_update_exact (sel_view s) op (perm_intersect (fs_of fl)))
                           (view_select sset by_uid (sel_view s)) b [] b' msgs);
       [apply view_select_NoDup, ssorted_NoDup, (si_sorted _ _ S)|intros x []|intros ? ? ? []|exact L]. }
   apply Forall_forall. intros r Hr. apply in_flat_map in Hr as [[[seq m] ex] [Hm Hr]].
@@ -395,9 +392,9 @@ Proof.
       pose proof (fork_ok b' s' (o_with_uid o) (v_sorted (sel_view s)) fz
                     (proj1 (br_ev _ _ _ _ B) _ _ Hb') S' Hprev Q2 Hq (si_sorted _ _ Sq)
                     (rd_hide _ _ _ _ R) (rd_new _ _ _ _ R)) as FK. cbn zeta in FK.
-      pose proof (fork_truthful b' (o_with_uid o) s') as FT.
+      pose proof (fork_truthful b' (o_with_uid o) s' (fun u m A Hu => rd_flags _ _ _ _ R b' u m Hb' A Hu) S') as FT.
       pose proof (fork_labelled b' (o_with_uid o) s' S') as FL.
-      destruct (fork (cached_of b') (o_with_uid o) s') as [s'' unt] eqn:EF. cbn [fst snd] in FK, FT, FL.
+      destruct (fork (cached_of b' (sel_view s')) (o_with_uid o) s') as [s'' unt] eqn:EF. cbn [fst snd] in FK, FT, FL.
       destruct FK as (Run & S'' & Qt & Vw & Bx & Rc & Ro & Nx).
       intros s1 b1 Hs1 Hb1. destruct (Final (Some s'') _ s1 Hs1) as [s2 [E2 Eb2]].
       inversion E2; subst s2. cbn [fst sy_boxes] in Hb1. rewrite Eb2, Bx, Hb' in Hb1. inversion Hb1; subst b1.
